@@ -307,16 +307,33 @@ Theorem C03_stale_collection_harmless :
     lookup Z.eqb (it_tm it) (timers st) = Some x /\ tm_armed x = true.
 Proof. exact stale_collection_harmless. Qed.
 
+(* The schedule that refuted the unguarded statement before the fix "the relay finishes (deletes)
+   a relay item only if it still belongs to the call the frame path looked up" ([ex_stale_finish]:
+   the reader of the destination connection has looked the originating item up for the final call
+   res -- relay.Receive.afterGet --, the caller's cancel is relayed, the id re-used at once and
+   admitted, the first reader goes on: finishRelayItem; reproduced on the implementation by C09's
+   engine relaystale, verdict [c09:stale-finish-deletes-live-item]) is harmless for the code as it
+   is: relayItems.deleteCall finds an item of another call and leaves it alone; the re-using call
+   (call 2) keeps its item, its armed timer and its pending count. *)
+Theorem C03_stale_finish_harmless :
+  exists st it x, run cn_cf init ex_stale_finish = Some st /\ panicked st = 0 /\
+    lookup key_eqb (0, 0, 7) (items st) = Some it /\ it_tomb it = false /\ it_call it = 2 /\
+    lookup Z.eqb (it_tm it) (timers st) = Some x /\ tm_armed x = true /\ c_pending (get_conn st 0) = 1.
+Proof. exact stale_finish_harmless. Qed.
+
 (* The guard of [run_reuse] is STILL NECESSARY: the unrestricted statement "no schedule with
-   re-used ids panics" is REFUTED for the code as it is by [ex_stale_finish]: the reader of the
-   destination connection has looked the originating item up for the final call res (timer
-   stopped, copy held: relay.Receive.afterGet); the caller cancels the call (cancel relayed, both
-   items deleted, End) and re-uses the id at once: no item, admitted, a live item with an armed
-   timer under the same key; the first reader goes on and finishRelayItem deletes the LIVE item of
-   the new call: release of an active timer, panic "only stopped or completed timers can be
-   released".  The re-using call req met no item, so the schedule is outside [run_reuse]. *)
+   re-used ids panics" is REFUTED for the code as it is by [ex_stale_fail] (RelayMaxTombs = 1 and
+   two tombstones of earlier calls): failRelayItem looks the item up (Get: timer stopped) and
+   entombs BY ID in a second lock region; the reader of the destination connection, failing the
+   call because the caller's send queue is full, is between the two; the caller's cancel is
+   relayed (both items deleted, End) and the id re-used at once (no item: admitted, live item,
+   armed timer); Entomb then finds more than RelayMaxTombs tombstones and deletes by id at once:
+   the LIVE item of the new call, whose active timer it releases: panic "only stopped or completed
+   timers can be released".  (Model witness only: relay.go has no schedule point between the Get
+   and the Entomb of failRelayItem; the re-using call req met no item, so the schedule is outside
+   [run_reuse].) *)
 Theorem C03_relay_reuse_unguarded_refuted :
-  exists ls st, run cn_cf init ls = Some st /\ panicked st = panic_release_active.
+  exists ls st, run tt_cf init ls = Some st /\ panicked st = panic_release_active.
 Proof. exact reuse_unguarded_refuted. Qed.
 
 (* the fresh-id schedules of C09/C10 are re-use schedules (the guard speaks about re-used ids only) *)
@@ -327,6 +344,7 @@ Print Assumptions C03_relay_admission_generated.
 Print Assumptions C03_duplicate_check_covers_tombstones.
 Print Assumptions C03_collection_leaves_live_item.
 Print Assumptions C03_stale_collection_harmless.
+Print Assumptions C03_stale_finish_harmless.
 Print Assumptions C03_relay_reuse_simulated.
 Print Assumptions C03_relay_reuse_no_panic.
 Print Assumptions C03_fresh_schedules_included.
@@ -350,3 +368,116 @@ Example C03_example_reuse_while_tomb :
   | _, _, _ => False
   end /\ run_fresh ex_cf init (ex_timed_out ++ ex_reuse) = None.
 Proof. vm_compute. repeat split; reflexivity. Qed.
+
+(* ======================================================================================
+   Pooled objects (strengthening U03): "malformed input costs only that frame or connection"
+   across sync.Pool.  An object that one peer's malformed input drove into a failed state goes
+   back into a process-wide pool and is drawn by a later user that may serve ANY other
+   connection.  Table of all pools with their reset statements: Gen/GenPoolReset.v (regenerated
+   from the source by go2v/poolreset.go); discipline: Model/PoolReset.v; the pooled typed.Reader
+   (thrift application headers) and typed.Writer as executable models: Model/PoolReader.v.
+   ====================================================================================== *)
+From Verif Require Import Spec.PoolSpec Gen.GenPoolReset Model.PoolReset Model.PoolReader Model.TypedBuf Model.Messages
+  Proofs.PoolResetP Proofs.PoolReaderP.
+
+(* the code as it is, every sync.Pool of the library (typed.Reader, typed.intBuffer, the thrift
+   protocol pool, the argument-reader scratch, request states, relay timers, checksums, metric
+   buffers; frames are delegated): every field of a pooled struct that some function reads before
+   writing it is a constant of the object, or assigned by EVERY Get path directly after the Get to a
+   value that does not depend on the previous user, or zeroed by every Put path, or a reviewed
+   exception pinned to today's readers and writers of the field *)
+Theorem C03_pool_reset_discipline_generated : pr_failures pool_reset_table = [].
+Proof. exact pool_table_disciplined. Qed.
+Theorem C03_pool_table_complete : pr_missing_pools pool_reset_table = [].
+Proof. exact pool_table_complete. Qed.
+Theorem C03_pool_exceptions_current : pr_stale_exceptions pool_reset_table = [].
+Proof. exact pool_exceptions_current. Qed.
+
+(* what the discipline buys, for ANY pooled object type: if every field that is live on entry of a
+   user is overwritten on the Get path with values computed from the user's own arguments, and a
+   user's run reads no other field before writing it, then the results of a whole history of users
+   do not depend on which objects the pool handed out nor on what it held at the start *)
+Theorem C03_pool_discipline_isolates_users : forall (F V A B : Type) (reset : A -> F -> option V) (L : F -> Prop)
+    (use : obj F V -> A -> obj F V * B),
+  disciplined reset L -> respects L use ->
+  forall args choice choice' pool pool',
+    run_users reset use choice pool args = run_users reset use choice' pool' args.
+Proof. exact (fun F V A B reset L use Hd Hr => clean_users reset L use Hd Hr). Qed.
+
+(* the model of the pooled Reader is the code's: NewReader assigns exactly r.reader (its parameter)
+   and r.err (nil), Release is a plain Put, the struct has the three fields of the model *)
+Theorem C03_reader_get_path_generated :
+  pr_get_resets_of pool_reset_table pr_k_readerPool pr_k_NewReader = [tr_new_resets] /\
+  pr_put_resets_of pool_reset_table pr_k_readerPool pr_k_Release = [tr_release_resets] /\
+  pr_fields_of pool_reset_table pr_k_readerPool = tr_fields /\
+  (forall pooled s, tr_new pooled s = tr_get tr_new_resets pooled s).
+Proof. exact (conj reader_get_resets_generated (conj reader_put_resets_generated (conj reader_fields_generated tr_new_is_get))). Qed.
+
+(* thrift.ReadHeaders through a pooled Reader in ANY state (any sticky error, any scratch bytes, any
+   stale underlying reader) on a header block [bytes] that ends with the error [fin] of the argument
+   reader: no panic; the error is nil exactly when the specification of the block (decoder over the
+   bytes alone) accepts it, and then the headers are the specified ones *)
+Theorem C03_pooled_reader_headers_spec : forall pooled bytes fin,
+  tr_ok pooled -> bytes_ok bytes = true -> fin <> 0 ->
+  exists h e r', tr_ReadHeaders pooled (mkPS bytes fin) = Some (h, e, r') /\ tr_ok r' /\
+    (e = 0 <-> rerr (snd (r_theaders (rb bytes))) = false) /\
+    (e = 0 -> h = fst (r_theaders (rb bytes))).
+Proof. exact pooled_headers_spec. Qed.
+
+(* ... and a whole history: one pooled Reader serving any sequence of blocks -- malformed ones of a
+   hostile peer, well-formed ones of other connections, in any order -- gives on every block the
+   result (headers AND error) that a brand-new Reader gives on that block alone *)
+Theorem C03_pooled_reader_history : forall inputs pooled, tr_ok pooled ->
+  Forall (fun s => bytes_ok (ps_bytes s) = true) inputs ->
+  tr_serve pooled inputs = map tr_alone inputs.
+Proof. exact pooled_reader_history. Qed.
+
+(* both reset statements of the Get path are NECESSARY.  Without r.err = nil: the malformed block
+   00 01 00 05 'a' leaves a Reader that fails the next, well-formed block with the stale
+   io.ErrUnexpectedEOF (code 2) *)
+Theorem C03_reader_err_reset_necessary :
+  exists hostile good, bytes_ok hostile = true /\ bytes_ok good = true /\
+    rerr (snd (r_theaders (rb good))) = false /\
+    match tr_ReadHeaders_with tr_resets_no_err tr_fresh (mkPS hostile 1) with
+    | Some (_, _, released) =>
+        match tr_ReadHeaders_with tr_resets_no_err released (mkPS good 1) with
+        | Some (_, e, _) => e = 2
+        | None => False
+        end
+    | None => False
+    end.
+Proof. exact reader_err_reset_necessary. Qed.
+(* without r.reader = reader: the next user decodes the previous user's stream *)
+Theorem C03_reader_reader_reset_necessary :
+  exists first good, bytes_ok first = true /\ bytes_ok good = true /\
+    match tr_ReadHeaders_with tr_resets_no_reader (mkTR (mkPS first 1) 0 (repeat 0 32)) (mkPS good 1) with
+    | Some (h, e, _) => e = 0 /\ h <> fst (r_theaders (rb good))
+    | None => False
+    end.
+Proof. exact reader_reader_reset_necessary. Qed.
+
+(* typed.Writer: whatever the pooled 8-byte scratch of WriteUint16 holds, the bytes written and the
+   final error state are the same (relay: arg2 re-written with appended headers) *)
+Theorem C03_pooled_intbuf_clean : forall ops ib1 ib2 w, length ib1 = 8%nat -> length ib2 = 8%nat ->
+  pwr_run_ops ops ib1 w = pwr_run_ops ops ib2 w.
+Proof. exact pooled_intbuf_clean. Qed.
+
+Print Assumptions C03_pool_reset_discipline_generated.
+Print Assumptions C03_pool_table_complete.
+Print Assumptions C03_pool_exceptions_current.
+Print Assumptions C03_pool_discipline_isolates_users.
+Print Assumptions C03_reader_get_path_generated.
+Print Assumptions C03_pooled_reader_headers_spec.
+Print Assumptions C03_pooled_reader_history.
+Print Assumptions C03_reader_err_reset_necessary.
+Print Assumptions C03_reader_reader_reset_necessary.
+Print Assumptions C03_pooled_intbuf_clean.
+
+(* non-vacuity: the harness' poisoned pool object (error set, scratch full of 0xAA, a dead underlying
+   reader) serves the hostile block, then a well-formed one: the first fails with
+   io.ErrUnexpectedEOF, the second decodes its one pair *)
+Example C03_example_poisoned_reader :
+  tr_ok tr_poison /\
+  tr_serve tr_poison [mkPS [0; 1; 0; 5; 97] 1; mkPS [0; 1; 0; 1; 107; 0; 2; 118; 119] 1] =
+    [Some (Some [([], [])], 2); Some (Some [([107], [118; 119])], 0)].
+Proof. vm_compute. split; reflexivity. Qed.
